@@ -32,14 +32,24 @@ class ExploreResult:
         self.covered = set()
 
 
-def explore(program, name, driver, setup=None, timeout_ms=20000, max_paths=4000, record_smt=False, stop_on_sat=False, recheck=0):
-    """driver(it) runs one path; returns a short outcome label."""
+def explore(program, name, driver, setup=None, timeout_ms=20000, max_paths=4000, record_smt=False, stop_on_sat=False, recheck=0,
+            roots=None, split_after=0):
+    """driver(it) runs one path; returns a short outcome label.
+
+    roots        decision prefixes to start from (default: the empty prefix = the whole tree); every
+                 alternative found below a root is explored here as well
+    split_after  after that many paths stop and hand the still unexplored alternatives back in
+                 .leftover (disjoint subtrees: the caller explores them elsewhere, in parallel)"""
     res = ExploreResult(name)
-    work = [[]]
+    res.leftover = []
+    work = list(roots) if roots else [[]]
     t0 = time.time()
     while work:
         if len(res.paths) >= max_paths:
             res.truncated = True
+            break
+        if split_after and len(res.paths) >= split_after and len(work) >= 2:
+            res.leftover = work
             break
         prefix = work.pop()
         ctx = Ctx(program, prefix, timeout_ms=timeout_ms, record_smt=record_smt)
